@@ -71,7 +71,7 @@ func regField(c *Ctx, rm recMod, e *ir.Expr, field string) bool {
 		return false
 	}
 	ka := keyArgs(k)
-	return len(ka) == 1 && isMsgField(ka[0], rm.IDField)
+	return len(ka) == 1 && isRegID(c, rm, ka[0])
 }
 
 func isCursorPlus1(c *Ctx, rm recMod, e *ir.Expr) bool {
@@ -122,7 +122,7 @@ func C07(c *Ctx) {
 			}
 			k := p.E.Args[1]
 			ka := keyArgs(k)
-			return w.SectionOfKey(k) == rm.SecReg && len(ka) == 1 && isMsgField(ka[0], rm.IDField)
+			return w.SectionOfKey(k) == rm.SecReg && len(ka) == 1 && isRegID(c, rm, ka[0])
 		}
 		strict := func(p ir.Pred) bool {
 			return cmpIs(p, ">", func(x *ir.Expr) bool { return isMsgField(x, "Height") }, func(y *ir.Expr) bool { return regField(c, rm, y, rm.Cursor) })
@@ -138,7 +138,7 @@ func C07(c *Ctx) {
 		// key of the record write / delete
 		for _, in := range storeKeys(c, h, map[string]bool{"StoreWrite": true}, rm.SecRec) {
 			ka := keyArgs(in.E)
-			ok := len(ka) == 2 && (isMsgField(ka[0], rm.IDField) || regField(c, rm, ka[0], rm.RegID))
+			ok := len(ka) == 2 && (isRegID(c, rm, ka[0]) || regField(c, rm, ka[0], rm.RegID))
 			if ok {
 				if rm.RecKeyMsg[1] == "@cursor+1" {
 					ok = isCursorPlus1(c, rm, ka[1])
@@ -215,7 +215,7 @@ func C07(c *Ctx) {
 			// key: same registration
 			for _, up := range w.OriginsUpTo(in.Eff.Fn, in.Eff.Key, h, 8) {
 				ka := keyArgs(up.E)
-				okk := len(ka) == 1 && (isMsgField(ka[0], rm.IDField) || regField(c, rm, ka[0], rm.RegID))
+				okk := len(ka) == 1 && (isRegID(c, rm, ka[0]) || regField(c, rm, ka[0], rm.RegID))
 				r.Require(okk, "A3.cursor-update", rm.M+"|key", pos(c, in.Eff.Site), "the registration re-stored is the one named in the message", "key "+up.E.String())
 			}
 		}
@@ -494,26 +494,66 @@ func C08(c *Ctx) {
 				}
 			}
 			ka := keyArgs(k)
-			return len(ka) == 1 && isMsgField(ka[0], rm.IDField)
+			return len(ka) == 1 && isRegID(c, rm, ka[0])
 		}
+		// (the number may have been carried along in a record filled by a validation phase)
+		isNumber := func(e *ir.Expr) bool {
+			if isMsgField(e, "Number") {
+				return true
+			}
+			nz := nonZeroAlts(w.Expand(e, 4))
+			return len(nz) == 1 && isMsgField(nz[0], "Number")
+		}
+		isMax := func(y *ir.Expr) bool { return isModParam(c, y, rm.M, "MaxStorageLimit") }
 		sum := func(e *ir.Expr) bool {
 			e = stripConvE(e)
-			return e != nil && e.Op == "bin" && e.Name == "+" && (limitOf(e.Args[0]) && isMsgField(e.Args[1], "Number") || limitOf(e.Args[1]) && isMsgField(e.Args[0], "Number"))
+			return e != nil && e.Op == "bin" && e.Name == "+" && (limitOf(e.Args[0]) && isNumber(e.Args[1]) || limitOf(e.Args[1]) && isNumber(e.Args[0]))
 		}
 		notOverMax := func(p ir.Pred) bool {
-			return cmpIs(p, "<=", sum, func(y *ir.Expr) bool { return isModParam(c, y, rm.M, "MaxStorageLimit") })
+			return cmpIs(p, "<=", sum, isMax)
 		}
 		noWrap := func(p ir.Pred) bool { return cmpIs(p, ">=", sum, limitOf) }
+		// the same two facts in the subtractive spelling: number <= max - limit, with limit below max so that the headroom
+		// itself cannot wrap; together they give limit + number <= max and (max being a uint64) no wrap of the sum
+		headroom := func(p ir.Pred) bool {
+			return cmpIs(p, "<=", isNumber, func(y *ir.Expr) bool {
+				y = stripConvE(y)
+				return y != nil && y.Op == "bin" && y.Name == "-" && isMax(y.Args[0]) && limitOf(y.Args[1])
+			})
+		}
+		below := func(p ir.Pred) bool { return cmpIs(p, "<", limitOf, isMax) || cmpIs(p, "<=", limitOf, isMax) }
+		// ... or number <= the saturating headroom (0 when the limit is not below max, else max - limit; that this
+		// subtraction is itself guarded is A9's obligation at its site): number <= 0 raises nothing
+		headroomSat := func(p ir.Pred) bool {
+			return cmpIs(p, "<=", isNumber, func(y *ir.Expr) bool {
+				x := w.Expand(stripConvE(y), 5)
+				sub := false
+				for _, a := range x.Alts() {
+					a = stripConvE(a)
+					switch {
+					case a.Op == "const" && a.Name == "0":
+					case a.Op == "bin" && a.Name == "-" && isMax(a.Args[0]) && limitOf(a.Args[1]):
+						sub = true
+					default:
+						return false
+					}
+				}
+				return sub && len(x.Alts()) >= 2
+			})
+		}
+		byHeadroom := func(f *ssa.Function, s ssa.Instruction) bool {
+			return w.Guarded(f, s, headroom, 2) && w.Guarded(f, s, below, 2) || w.Guarded(f, s, headroomSat, 3)
+		}
 		positive := func(p ir.Pred) bool {
-			return cmpIs(p, "!=", func(x *ir.Expr) bool { return isMsgField(x, "Number") }, func(y *ir.Expr) bool { return y.Op == "const" && y.Name == "0" }) ||
-				cmpIs(p, ">", func(x *ir.Expr) bool { return isMsgField(x, "Number") }, func(y *ir.Expr) bool { return y.Op == "const" && y.Name == "0" })
+			return cmpIs(p, "!=", isNumber, func(y *ir.Expr) bool { return y.Op == "const" && y.Name == "0" }) ||
+				cmpIs(p, ">", isNumber, func(y *ir.Expr) bool { return y.Op == "const" && y.Name == "0" })
 		}
 		sites := mutatingSites(c, h, isStateMutation)
 		r.Floor("mutating sites in "+rm.M+" purchase handler", len(sites), 1)
 		for i, s := range sites {
 			k := fmt.Sprintf("%s|site%d:%s", rm.M, i, siteName(c, s))
-			r.Require(w.Guarded(h, s, notOverMax, 2), "A2.purchase-guards", "max|"+k, pos(c, s), "storage is increased only when limit + number <= params.MaxStorageLimit", "reachable without that comparison")
-			r.Require(w.Guarded(h, s, noWrap, 2), "A2.purchase-guards", "no-wrap|"+k, pos(c, s), "storage is increased only when limit + number did not wrap (sum >= limit)", "reachable without an overflow check")
+			r.Require(w.Guarded(h, s, notOverMax, 2) || byHeadroom(h, s), "A2.purchase-guards", "max|"+k, pos(c, s), "storage is increased only when limit + number <= params.MaxStorageLimit", "reachable without that comparison")
+			r.Require(w.Guarded(h, s, noWrap, 2) || byHeadroom(h, s), "A2.purchase-guards", "no-wrap|"+k, pos(c, s), "storage is increased only when limit + number did not wrap (sum >= limit)", "reachable without an overflow check")
 			r.Require(w.Guarded(h, s, positive, 2), "A2.purchase-guards", "positive|"+k, pos(c, s), "storage is increased only for number > 0", "reachable with number == 0")
 		}
 		nl := 0
@@ -523,11 +563,11 @@ func C08(c *Ctx) {
 			r.Require(lim != nil && sum(lim), "A7.new-limit", rm.M+"|value", pos(c, in.Eff.Site), "the stored limit is exactly (stored limit of msg."+rm.IDField+") + msg.Number — the sum that was checked", fmt.Sprint(lim))
 			for _, up := range w.OriginsUpTo(in.Eff.Fn, in.Eff.Key, h, 8) {
 				ka := keyArgs(up.E)
-				r.Require(len(ka) == 1 && isMsgField(ka[0], rm.IDField), "A7.new-limit", rm.M+"|key", pos(c, in.Eff.Site), "the limit is stored for the registration named in the message", "key "+up.E.String())
+				r.Require(len(ka) == 1 && isRegID(c, rm, ka[0]), "A7.new-limit", rm.M+"|key", pos(c, in.Eff.Site), "the limit is stored for the registration named in the message", "key "+up.E.String())
 			}
 		}
 		r.Floor("limit writes reachable from "+rm.M+" purchase handler", nl, 1)
-		uint64Range(c, rm, []*ssa.Function{h, handlerOf(c, rm.M, rm.Record), queryOf(c, rm.M, rm.StorageQuery)}, sum)
+		uint64Range(c, rm, []*ssa.Function{h, handlerOf(c, rm.M, rm.Record), queryOf(c, rm.M, rm.StorageQuery)}, sum, byHeadroom)
 		prunePairing(c, rm)
 		// the markers recomputed after a prune come from scans of the record section: none may stop short of its last record
 		if ni, nbad := iterEndBounds(c, "A11.iter-end-bound", moduleFuncs(c, rm.M), true); nbad == 0 {
@@ -543,12 +583,14 @@ func C08(c *Ctx) {
 				mp := structFromPtr(c, ret.Results[0], "MaxPurchasable")
 				if mp != nil {
 					got = mp.String()
-					x := w.Expand(mp, 3)
+					x := w.Expand(mp, 5)
 					// saturating: alternatives are 0 or (max - limit), and the subtraction is guarded (checked by A9)
 					good := true
 					sub := false
+					sat := false
 					for _, a := range x.Alts() {
 						if a.Op == "const" && a.Name == "0" {
+							sat = true
 							continue
 						}
 						if a.Op == "bin" && a.Name == "-" && isModParam(c, a.Args[0], rm.M, "MaxStorageLimit") {
@@ -557,7 +599,8 @@ func C08(c *Ctx) {
 						}
 						good = false
 					}
-					ok = good && sub && mp.Op == "call" && mp.Callee != nil
+					ok = good && sub && sat
+					got = x.String()
 				}
 			}
 			r.Require(ok, "A7.max-purchasable", rm.M, w.Pos(q.Pos()), "the storage query reports the keeper's saturating remaining capacity max(0, max - limit)", "MaxPurchasable = "+got)
@@ -598,7 +641,7 @@ func fieldNameOf(fa *ssa.FieldAddr) string { return ir.FieldName(fa.X.Type(), fa
 
 // uint64Range (A9): every uint64 add/sub on non-constant operands in module functions
 // reachable from the given roots is range-guarded.
-func uint64Range(c *Ctx, rm recMod, roots []*ssa.Function, checkedSum func(*ir.Expr) bool) {
+func uint64Range(c *Ctx, rm recMod, roots []*ssa.Function, checkedSum func(*ir.Expr) bool, altGuard func(*ssa.Function, ssa.Instruction) bool) {
 	w, r := c.W, c.R
 	var rs []*ssa.Function
 	for _, f := range roots {
@@ -676,7 +719,7 @@ func uint64Range(c *Ctx, rm recMod, roots []*ssa.Function, checkedSum func(*ir.E
 					why = "subtraction needs a dominating x >= y (or x > _ for x-1)"
 				case bo.Op == token.ADD:
 					// wrap check after the fact: every use is guarded by sum >= operand; or the sum (instantiated at the handler) is the checked sum
-					ok2 = addIsChecked(c, f, bo, roots, checkedSum)
+					ok2 = addIsChecked(c, f, bo, roots, checkedSum, altGuard)
 					why = "addition needs a wrap check (sum >= operand) guarding its uses"
 				}
 				r.Require(ok2, "A9.uint64-range", key, pos(c, in), "uint64 arithmetic on message/state/parameter values cannot wrap: "+why, "unguarded "+w.ExprOf(bo).String())
@@ -698,7 +741,7 @@ func dependsOnInput(e *ir.Expr) bool {
 
 // addIsChecked: the sum, instantiated up to one of the roots, is the handler's checked sum and
 // the call leading to it is guarded there; or locally every use is dominated by a wrap check.
-func addIsChecked(c *Ctx, f *ssa.Function, bo *ssa.BinOp, roots []*ssa.Function, checkedSum func(*ir.Expr) bool) bool {
+func addIsChecked(c *Ctx, f *ssa.Function, bo *ssa.BinOp, roots []*ssa.Function, checkedSum func(*ir.Expr) bool, altGuard func(*ssa.Function, ssa.Instruction) bool) bool {
 	w := c.W
 	e := w.ExprOf(bo)
 	wrapGuard := func(sumStr string, ops ...string) ir.Matcher {
@@ -752,7 +795,7 @@ func addIsChecked(c *Ctx, f *ssa.Function, bo *ssa.BinOp, roots []*ssa.Function,
 			if checkedSum(up.E) && len(up.Chain) > 0 {
 				s := up.E.String()
 				xs, ys := up.E.Args[0].String(), up.E.Args[1].String()
-				if w.Guarded(root, up.Chain[0], wrapGuard(s, xs, ys), 2) {
+				if w.Guarded(root, up.Chain[0], wrapGuard(s, xs, ys), 2) || altGuard != nil && altGuard(root, up.Chain[0]) {
 					return true
 				}
 			}
@@ -1105,4 +1148,34 @@ func linearForm(e *ir.Expr) (*ir.Expr, int, bool) {
 		e = stripConvE(e.Args[0])
 	}
 	return e, k, e != nil
+}
+
+// isRegID: e names the registration the message names: msg.<id> itself, or the id field of the registration loaded under
+// that key — a registration is stored under the key of its own id (A7.registration-fields|key=id, and the import rules),
+// so state(key(X)).id is X; the empty alternative a getter hands back with found=false is not what a handler that
+// checked found goes on with.
+func isRegID(c *Ctx, rm recMod, e *ir.Expr) bool {
+	for i := 0; i < 4 && e != nil; i++ {
+		if isMsgField(e, rm.IDField) {
+			return true
+		}
+		x := c.W.Expand(e, 3)
+		nz := nonZeroAlts(x)
+		if len(nz) != 1 {
+			return false
+		}
+		x = nz[0]
+		if isMsgField(x, rm.IDField) {
+			return true
+		}
+		if !isStateField(x, rm.SecReg, rm.RegID) {
+			return false
+		}
+		ka := keyArgs(stateKey(x))
+		if len(ka) != 1 {
+			return false
+		}
+		e = ka[0]
+	}
+	return false
 }
